@@ -155,8 +155,9 @@ def finish(rep, level, explanation, technique, assumptions=None, extra=None, exh
     }
     if rep.broken:
         ev['coverage']['analysis_broken'] = rep.broken
-    os.makedirs(os.path.join(VERIF, 'evidence'), exist_ok=True)
-    with open(os.path.join(VERIF, 'evidence', rep.prop + '.json'), 'w') as fh:
+    evdir = os.environ.get('LLTD_EVIDENCE_DIR') or os.path.join(VERIF, 'evidence')
+    os.makedirs(evdir, exist_ok=True)
+    with open(os.path.join(evdir, rep.prop + '.json'), 'w') as fh:
         json.dump(ev, fh, indent=1, sort_keys=True, default=str)
         fh.write('\n')
     print('%s tier=%s obligations=%d discharged=%d rules=%d wall=%.2fs' %
@@ -172,9 +173,10 @@ def finish(rep, level, explanation, technique, assumptions=None, extra=None, exh
     if viol:
         for b in rep.broken:
             print('note: analysis incomplete (%s); the violations below stand on their own' % b)
-        os.makedirs(os.path.join(VERIF, 'replay'), exist_ok=True)
+        rpdir = os.environ.get('LLTD_REPLAY_DIR') or os.path.join(VERIF, 'replay')
+        os.makedirs(rpdir, exist_ok=True)
         for i, f in enumerate(viol):
-            path = os.path.join(VERIF, 'replay', '%s-%d.json' % (rep.prop, i))
+            path = os.path.join(rpdir, '%s-%d.json' % (rep.prop, i))
             with open(path, 'w') as fh:
                 json.dump(f.to_json(), fh, indent=1, default=str)
                 fh.write('\n')
